@@ -109,6 +109,51 @@ class FaultyAtom(AtomBase):
     __hash__ = None
 
 
+class InplaceAtom(FaultyAtom):
+    """Accumulator-style atom: the value lives in a one-element array and arithmetic works in
+    the *left operand's* own storage and returns that operand (cheap, and legal: every atom a
+    solve() builds is that call's temporary).  Anything the solver keeps between calls and
+    uses again as a left operand shows."""
+
+    def __init__(self, value):
+        if isinstance(value, str):
+            InjectedFault.tick("construct")
+            v = value.strip()
+            value = VARS[v] if v in VARS else float(v)
+        if isinstance(value, np.ndarray):
+            self.value = value
+        else:
+            self.value = np.array([value], dtype=float)
+
+    def _in(self, ufunc, o):
+        InjectedFault.tick("arith")
+        ufunc(self.value, o.value, out=self.value)
+        return self
+
+    def __add__(self, o): return self._in(np.add, o)
+    def __sub__(self, o): return self._in(np.subtract, o)
+    def __mul__(self, o): return self._in(np.multiply, o)
+    def __truediv__(self, o): return self._in(np.divide, o)
+    def __pow__(self, o): return self._in(np.power, o)
+
+    def __neg__(self):
+        InjectedFault.tick("arith")
+        np.negative(self.value, out=self.value)
+        return self
+
+    def _a(self, v): InjectedFault.tick("arith"); return InplaceAtom(v)
+    def _c(self, v): InjectedFault.tick("compare"); return InplaceAtom(np.asarray(v, dtype=float).reshape(1))
+    def _f(self, v): InjectedFault.tick("func"); return InplaceAtom(v)
+    def logical_and(self, o): return self._c(bool(self.value[0]) and bool(o.value[0]))
+    def logical_or(self, o): return self._c(bool(self.value[0]) or bool(o.value[0]))
+    def logical_not(self): return self._c(not bool(self.value[0]))
+    __hash__ = None
+
+
+def _mk_inplace():
+    return ExpressionSolver(InplaceAtom)
+
+
 class StrAtom(AtomBase):
     """String-valued atom of tests/solver/test_customisation.py, with the fault
     seam in constructor, concatenation and comparison."""
@@ -321,6 +366,7 @@ KINDS = {
     "nopar": (_mk_nopar, "nopar"),
     "loose": (_mk_loose, "loose"),
     "arrays": (_mk_arrays, "arrays"),
+    "inplace": (_mk_inplace, "numeric"),
     "factory": (_mk_factory, "numeric"),
     "base": (_mk_base, "numeric"),
     "faulty": (_mk_faulty, "numeric"),
@@ -330,7 +376,7 @@ KINDS = {
     "unit": (_mk_unit, "unit"),
 }
 KIND_ORDER = ["base", "faulty", "string", "subset", "steps", "unit", "factory", "steps2",
-              "arrays", "customop", "nopar", "loose"]
+              "arrays", "customop", "nopar", "loose", "inplace"]
 
 
 # expression generator ---------------------------------------------------------
